@@ -19,15 +19,15 @@ Proof.
   cbn [run_obj] in Hr. destruct (auto_step s e) as [s1|c] eqn:E; [|discriminate].
   assert (G : forall f1, sim s1 f1 -> scan f1 t = 0%N) by (intros f1 H1; apply (IH s1 f1 H1); eauto).
   destruct e as [o|o|o ok|o|o same|o]; destruct s; cbn [auto_step] in E; try discriminate;
-    cbn [sim] in Hs; cbn [scan].
-  - (* Rel, Live *) injection E as <-. destruct Hs as [H1 H2]. rewrite H1, H2. cbn [andb]. apply G. reflexivity.
-  - (* Rel, Releasing *) injection E as <-. destruct Hs as [H1 H2]. rewrite H1, H2. rewrite andb_false_r. apply G. reflexivity.
-  - (* Rec, Freed *) injection E as <-. apply G. exact Hs.
-  - (* Reacq, Pooled *) destruct ok; [|discriminate]. injection E as <-. apply G. split; reflexivity.
-  - (* Hold, Live *) injection E as <-. destruct Hs as [H1 H2]. rewrite H1. apply G. repeat split.
-  - (* Unhold, Held *) destruct same; [|discriminate]. injection E as <-. destruct Hs as [H1 [H2 H3]]. apply G. split; [exact H1|reflexivity].
-  - (* AppRel, Live *) injection E as <-. destruct Hs as [H1 H2]. rewrite H1. apply G. split; reflexivity.
-  - (* AppRel, Held *) injection E as <-. destruct Hs as [H1 [H2 H3]]. rewrite H1. apply G. split; reflexivity.
+    cbn [sim] in Hs; cbn [scan];
+    try (destruct ok; [|discriminate]); try (destruct same; [|discriminate]);
+    injection E as <-;
+    repeat match goal with H : _ /\ _ |- _ => destruct H end;
+    repeat match goal with H : in_pool f = _ |- _ => rewrite H end;
+    repeat match goal with H : app_holds f = _ |- _ => rewrite H end;
+    repeat match goal with H : app_releasing f = _ |- _ => rewrite H end;
+    cbn [andb negb]; rewrite ?andb_false_r;
+    apply G; cbn [sim in_pool app_holds app_releasing]; repeat split; auto.
 Qed.
 
 Definition accepted (t : list lc) : Prop := forall o, exists s, run_obj Live (project o t) = inl s.
@@ -43,7 +43,7 @@ Proof.
     { induction t0 as [|e r IHr]; intros s; cbn [run_obj]; [discriminate|].
       destruct (auto_step s e) as [s1|c1] eqn:A; [apply IHr|].
       destruct e as [o|o|o ok|o|o same|o]; destruct s; cbn [auto_step] in A; try discriminate; try (injection A as <-; discriminate);
-        try (destruct ok; discriminate); try (destruct same; discriminate). }
+        try (destruct ok; [discriminate|injection A as <-; discriminate]); try (destruct same; [discriminate|injection A as <-; discriminate]). }
     exact (G _ _ E).
 Qed.
 
